@@ -55,6 +55,15 @@ def ep_gen(name, obs, checks, qmod, **kw):
     return j
 
 
+def check_gen(name, obs, checks, qmod, **kw):
+    """Mode C: TLC-enumerated piece x origin x enemy-king situations (Gen_Check.tla), every move played."""
+    j = {"type": "gen", "name": name, "gen_spec": "Gen_Check", "driver": "board", "spec": "Trace_Board", "checks": checks,
+         "args": {"common": {"obs": ",".join(obs), "gen-play": "all"}},
+         "params": {"quick": {"gencfg": {"mod": qmod, "rem": 0}, "workers": 8}, "thorough": {"gencfg": {"mod": 1, "rem": 0}, "workers": 16, "xmx": "10g", "timeout": 3600}}}
+    j.update(kw)
+    return j
+
+
 def board_job(name, obs, checks, q, t, variant="release", extra_common=None, **kw):
     common = {"obs": ",".join(obs)}
     if extra_common:
@@ -91,6 +100,7 @@ PROPS = {
         "rule": "every logged state after reset / play / null move; rebuild through the builder must be == ; transposition pairs",
         "assumptions": BOARD_ASSUME,
         "jobs": [
+            check_gen("check-geometries", [], ["C03"], 40, seed_offset=5),
             ep_gen("ep-cases", ["rebuild"], ["C03", "C09"], 50, seed_offset=23),
             chess_model("model-derived", ["DerivedOK", "CheckersAreAttackers", "FreshEqual"], [], MCQ, MCT),
             board_job("derived", ["rebuild"], ["C03", "C09"], {"histories": 900, "subtrees": 80, "deep": 2, "transpositions": 150}, {"histories": 60000, "subtrees": 200, "deep": 40, "transpositions": 5000}, sample_kinds=["play", "null", "rebuild", "pair"]),
